@@ -425,7 +425,7 @@ func (p *{{$TypeName}}) {{.Writer}}(oprot thrift.TProtocol) (err error) {
 		goto WriteFieldEndError
 	}
 	{{- if Features.WithFieldMask}}
-	{{- if Features.FieldMaskZeroRequired}}
+	{{- if and Features.FieldMaskZeroRequired .Requiredness.IsRequired}}
 	} else {
 		if err = oprot.WriteFieldBegin("{{.Name}}", thrift.{{$TypeID}}, {{.ID}}); err != nil {
 			goto WriteFieldBeginError
@@ -435,7 +435,7 @@ func (p *{{$TypeName}}) {{.Writer}}(oprot thrift.TProtocol) (err error) {
 			goto WriteFieldEndError
 		}
 	}
-	{{- else if not .Requiredness.IsRequired}}
+	{{- else if or Features.FieldMaskZeroRequired (not .Requiredness.IsRequired)}}
 	}
 	{{- end}}
 	{{- end}}
